@@ -8,8 +8,9 @@ building of `properties_map`) and `…/read/from_vectortiles_merged.rs` (`merge_
 `get_tile_data`).
 
 Conventions
-* strings are their UTF-8 bytes; `f32`/`f64` payloads are opaque 4/8-byte strings (equality = equality
-  of bits; Rust's `==`/`Hash` mismatch for NaN and ±0 inside `VTLPMap::add` is outside the model);
+* strings are their UTF-8 bytes; `f32`/`f64` payloads are opaque 4/8-byte strings, equality = equality
+  of bits – which is `GeoValue`'s `==` and `Hash` since `fix:` a692f070 (before, `==` was IEEE and
+  `VTLPMap::add` merged +0.0 and −0.0 at random);
 * `GeoProperties` (a `BTreeMap<String, GeoValue>`) is a key-sorted association list (`Props`);
 * `VTLPMap` is its `list`; the `map` field is derived data (first index of every entry – true after
   the `fix:` commit 3b5b02f4 which made the layer reader append instead of de-duplicate);
